@@ -6,6 +6,10 @@ package main
 //
 // entries group: pairs "t nm"; t >= 0: file name M.<t as 10 digits>.A.<nm as 3 hex digits>;
 // t = -1: delete-marked (".deleted", owner "-"); t = -2: all-zero record; t = -3: garbage digits in the time field.
+//
+// Site configuration: a first group "20 sd op" runs op with the safe-delete prefix FN_SAFEDEL configured to sd bytes
+// (2 = the default ".d", 8 = ".deleted", the other value of pttbbs common.h) through the configuration key
+// go-pttbbs:ptttype.fn_safedel and ptttype.InitConfig(); every other case runs under the default.
 
 import (
 	"bytes"
@@ -26,6 +30,7 @@ import (
 	"github.com/Ptt-official-app/go-pttbbs/ptt"
 	"github.com/Ptt-official-app/go-pttbbs/ptttype"
 	"github.com/Ptt-official-app/go-pttbbs/types"
+	"github.com/spf13/viper"
 )
 
 type c06Entry struct {
@@ -167,6 +172,18 @@ func init() {
 			env.close()
 		},
 		run: func(args [][]string) []string {
+			sd := int64(2)
+			if ai(args[0][0]) == 20 { // "20 sd op": op under FN_SAFEDEL of sd bytes
+				if len(args[0]) != 3 {
+					return []string{"9"}
+				}
+				sd = ai(args[0][1])
+				if sd < 2 || sd > 8 {
+					return []string{"9"}
+				}
+				args = append([][]string{{args[0][2]}}, args[1:]...)
+			}
+			c06SetSafeDel(sd)
 			switch ai(args[0][0]) {
 			case 1: // FindRecordStartIdx: total T hasname nm desc
 				write(0, dirFile, args[1])
@@ -236,10 +253,17 @@ func init() {
 						ss = ss[:k]
 					}
 					for _, s := range ss {
+						// the summary must be the record at that position of the file
+						if p := int64(s.Aid); p < 1 || p > int64(len(es)) || s.Filename != c06Header(es[p-1]).Filename {
+							return fin(90)
+						}
 						visited = append(visited, oi(int64(s.Aid)))
 					}
 					if next == nil {
 						return fin(0)
+					}
+					if p := int64(next.Aid); p < 1 || p > int64(len(es)) || next.Filename != c06Header(es[p-1]).Filename {
+						return fin(90)
 					}
 					ct, err := next.Filename.CreateTime()
 					if err != nil {
@@ -346,10 +370,34 @@ func init() {
 					cursor = page.next
 				}
 				return []string{"2"}
+			case 21: // Filename_t.Eq under the configured prefix: sd t nm t' nm'
+				p := args[1]
+				if ai(p[0]) != int64(ptttype.FN_SAFEDEL_PREFIX_LEN) {
+					return []string{"9"}
+				}
+				if c06Name(ai(p[1]), ai(p[2])).Eq(c06Name(ai(p[3]), ai(p[4]))) {
+					return ok("1")
+				}
+				return ok("0")
 			}
 			return []string{"9"}
 		},
 	})
+}
+
+// the site configuration FN_SAFEDEL = the first sd bytes of ".deleted" (sd = 2: ".d", the default), set the way a
+// site sets it: the configuration key, then ptttype.InitConfig() (config() + postInitConfig() -> setFNSafeDel)
+func c06SetSafeDel(sd int64) {
+	want := ".deleted"[:sd]
+	if ptttype.FN_SAFEDEL == want && ptttype.FN_SAFEDEL_PREFIX_LEN == len(want) {
+		return
+	}
+	home := ptttype.BBSHOME
+	viper.Set("go-pttbbs:ptttype.fn_safedel", want)
+	must(ptttype.InitConfig())
+	if ptttype.FN_SAFEDEL != want || ptttype.FN_SAFEDEL_PREFIX_LEN != len(want) || string(ptttype.FN_SAFEDEL_b) != want || ptttype.BBSHOME != home {
+		panic("badcase:FN_SAFEDEL not configured")
+	}
 }
 
 // the cursor text a client would send for M.<t>.A.<nm>
